@@ -77,6 +77,7 @@ theorem apply_step (y : Sys) (g : Good y.s) (op : Op) (hp : op.plain = true) (ho
       · exact Step.refl g
       · rename_i hk
         exact (imul_step y g r (by simpa using hr) k hk).1
+  | observe => exact Step.refl g
   | enter => cases hp
   | exit => cases hp
 
